@@ -211,3 +211,31 @@ pub fn view(bytes: &[u8]) -> Option<View> {
         full_rcode: msg.opt_rcode().to_int(),
     })
 }
+
+/// The `n` messages (n >= 1) of a full zone transfer answering `req`: the
+/// first starts with the SOA, the last ends with it, in between address
+/// records 10.77.<message>.<record>; every message repeats id and question.
+pub fn mk_xfer_msgs(req: &[u8], n: usize) -> Vec<Vec<u8>> {
+    use domain::base::Serial;
+    use domain::rdata::Soa;
+    let msg = Message::from_octets(req).expect("request");
+    let q = msg.first_question().expect("question");
+    let soa = Soa::new(name("ns.xfer.sim."), name("admin.xfer.sim."), Serial(7), Ttl::from_secs(1), Ttl::from_secs(2), Ttl::from_secs(3), Ttl::from_secs(4));
+    let mut out = Vec::new();
+    for i in 0..n {
+        let mb = MessageBuilder::new_vec();
+        let mut ab = mb.start_answer(&msg, Rcode::NOERROR).expect("start_answer");
+        ab.header_mut().set_aa(true);
+        if i == 0 {
+            ab.push((q.qname(), Class::IN, Ttl::from_secs(60), soa.clone())).unwrap();
+        }
+        for j in 0..3u8 {
+            ab.push((name(&format!("h{}-{}.xfer.sim.", i, j)), Class::IN, Ttl::from_secs(60), A::new(Ipv4Addr::new(10, 77, i as u8, j)))).unwrap();
+        }
+        if i + 1 == n {
+            ab.push((q.qname(), Class::IN, Ttl::from_secs(60), soa.clone())).unwrap();
+        }
+        out.push(ab.into_message().into_octets());
+    }
+    out
+}
